@@ -379,8 +379,29 @@ Fixpoint dedup (l : list path) : list path :=
 Definition listing (f : fs) : list (path * node) :=
   flat_map (fun q => match look f q with Some n => [(q, n)] | None => [] end)
            (sort_by (fun q => q) (dedup (dom f))).
+(* left-over temporaries are reported by their rank among the temporaries that
+   are present (the harness cannot see how many were created and renamed away) *)
+Fixpoint nodup_nat (l : list nat) : list nat :=
+  match l with
+  | [] => []
+  | x :: r => if existsb (Nat.eqb x) r then nodup_nat r else x :: nodup_nat r
+  end.
+Definition tmp_heads (l : list (path * node)) : list nat :=
+  nodup_nat (flat_map (fun qn => match fst qn with Tmp k :: _ => [k] | _ => [] end) l).
+Fixpoint index_of (k : nat) (l : list nat) (n : nat) : nat :=
+  match l with
+  | [] => n
+  | x :: r => if Nat.eqb x k then n else index_of k r (S n)
+  end.
+Definition oname_c (tm : list nat) (a : name) : obs :=
+  match a with
+  | Tmp k => OL [OT "tmp"; OZ (Z.of_nat (index_of k tm 0))]
+  | _ => oname a
+  end.
 Definition olisting (f : fs) : obs :=
-  olist (fun qn => OL [olist oname (fst qn); onode (snd qn)]) (listing f).
+  let l := listing f in
+  let tm := tmp_heads l in
+  olist (fun qn => OL [olist (oname_c tm) (fst qn); onode (snd qn)]) l.
 
 (* The order of TreeDelta.kind_changed is the iteration order of the CHK
    inventory (hash order, environment).  The model uses the path order; the
